@@ -2,10 +2,11 @@
 
 package witness
 
-// Witness for the finding "upgrade lost when the server hangs up with the sts
-// acknowledgement" (notes/proposed-fixes/sts-upgrade-lost-on-teardown-error.diff). The
-// defect is NOT repaired in /repo, so the test is named TestProposedC10_… and is not picked
-// up by bin/check (which runs ^TestC10_); rename it to TestC10_… together with the fix.
+// Witness for the defect repaired in /repo as 52091d0 "an STS upgrade is carried out even if
+// the old connection's teardown reports an error": the server hangs up at the moment it
+// acknowledges a valid policy; before the fix Connect returned the I/O error without the
+// secure redial and left beginUpgrade set (the patch is kept in
+// notes/proposed-fixes/sts-upgrade-lost-on-teardown-error.diff).
 
 import (
 	"bufio"
